@@ -115,4 +115,106 @@ Proof.
   - exists l, now. auto.
   - exfalso. eapply Hnc; eauto.
 Qed.
+
+(* ---------------------------------------------------------------- a due timer fires at the next
+   ExecuteTimeouts of ANY continuation of the history *)
+Lemma prim_log s s' : prim s s' -> log s' = log s \/ exists x, log s' = x :: log s.
+Proof.
+  clear alloc_ok pickc_ok. destruct 1; simpl; eauto.
+  unfold do_cancel_id. destruct (id =? 0); auto. simpl.
+  destruct (find (fun e => eid e =? id) (evs s)); eauto.
+Qed.
+Definition rel23 (L0 : list lentry) (e : event) (s : state) : Prop :=
+  exists l, log s = l ++ L0 /\
+    ((exists now, In (LFire e now) l) \/ (exists id, In (LCancel (eser e) id) (log s))).
+Lemma prim_rel23 L0 e s s' : prim s s' -> rel23 L0 e s -> rel23 L0 e s'.
+Proof.
+  intros P (l & E & H). destruct (prim_log s s' P) as [X|(x & X)].
+  - exists l. rewrite X. auto.
+  - exists (x :: l). rewrite X, E. split; auto. destruct H as [(now & H)|(id & H)].
+    + left. exists now. right; auto.
+    + right. exists id. rewrite <- E. right; auto.
+Qed.
+Lemma star_rel23 L0 e s s' : star s s' -> rel23 L0 e s -> rel23 L0 e s'.
+Proof. induction 1; auto. intros. apply IHstar. eapply prim_rel23; eauto. Qed.
+
+Lemma run_app ops1 : forall ops2 s, run alloc pickc s (ops1 ++ ops2) =
+  match run alloc pickc s ops1 with Some s1 => run alloc pickc s1 ops2 | None => None end.
+Proof.
+  induction ops1 as [|o ops1 IH]; simpl; intros; auto.
+  destruct (step alloc pickc s o); auto.
+Qed.
+
+Lemma t_due_fires_later ops0 s pre cbs post s' e :
+  run alloc pickc init ops0 = Some s -> In e (q s) -> enext e <= clock s ->
+  run alloc pickc s (pre ++ OExec cbs :: post) = Some s' ->
+  (forall id, ~ In (LCancel (eser e) id) (log s')) ->
+  exists l now, log s' = l ++ log s /\ In (LFire e now) l.
+Proof.
+  intros Hr Hq Hdue Hs Hnc.
+  destruct (reach_inv alloc pickc alloc_ok pickc_ok ops0 s Hr) as [I C].
+  rewrite run_app in Hs. destruct (run alloc pickc s pre) as [s1|] eqn:R1; [|discriminate].
+  change (run alloc pickc s1 (OExec cbs :: post)) with
+    (match step alloc pickc s1 (OExec cbs) with Some x => run alloc pickc x post | None => None end) in Hs.
+  destruct (step alloc pickc s1 (OExec cbs)) as [s2|] eqn:R2; [|discriminate].
+  destruct (run_star alloc pickc pickc_ok pre s s1 C R1) as [S1 C1].
+  destruct (step_star alloc pickc pickc_ok s1 (OExec cbs) s2 C1 R2) as [S2 C2].
+  destruct (run_star alloc pickc pickc_ok post s2 s' C2 Hs) as [S3 C3].
+  assert (R0 : rel (log s) e s).
+  { exists []. split; auto. left. split; auto. intros x Hx Ex.
+    eapply ser_inj; eauto. rewrite (evs_nocur s C); auto. }
+  assert (S12 : star s s2) by (eapply star_trans; eauto).
+  assert (R23 : rel23 (log s) e s2).
+  { destruct (star_rel (log s) e s s2 S12 I R0) as (l & E & [[Hq' _]|H]).
+    - exfalso. simpl in R2. destruct (do_exec alloc pickc s1 cbs) as [[sx n1]|] eqn:X; inversion R2; subst sx.
+      destruct (exec_post alloc pickc s1 cbs s2 n1 X) as [_ P]. specialize (P e Hq').
+      pose proof (star_clock s s1 S1). pose proof (star_clock s1 s2 S2). lia.
+    - exists l. split; auto. }
+  destruct (star_rel23 (log s) e s2 s' S3 R23) as (l & E & [(now & Hf)|(id & Hc)]).
+  - exists l, now. auto.
+  - exfalso. eapply Hnc; eauto.
+Qed.
+
+(* a SelectServer iteration is the history runonce_ops *)
+Lemma do_regs_run l : forall s,
+  run alloc pickc s (map (fun r : reg3 => let '(rep, iv, h) := r in OReg rep iv h) l) = Some (do_regs alloc s l).
+Proof.
+  clear alloc_ok pickc_ok. unfold do_regs. induction l as [|[[rep iv] h] l IH]; simpl; intros; auto.
+Qed.
+Lemma runonce_run epoll s b lr dr cbs1 cbs2 s' :
+  runonce alloc pickc epoll s b lr dr cbs1 cbs2 = Some s' ->
+  exists sleep, run alloc pickc s (runonce_ops epoll sleep lr dr cbs1 cbs2) = Some s' /\
+    (forall s1 now1, do_exec alloc pickc (do_regs alloc s lr) cbs1 = Some (s1, now1) ->
+       sleep = poll_sleep epoll s1 now1 b).
+Proof.
+  clear alloc_ok pickc_ok. unfold runonce, runonce_ops. intros H.
+  destruct (do_exec alloc pickc (do_regs alloc s lr) cbs1) as [[s1 now1]|] eqn:E1; [|discriminate].
+  exists (poll_sleep epoll s1 now1 b). split; [|intros ? ? X; inversion X; subst; reflexivity].
+  rewrite run_app, do_regs_run. simpl. rewrite E1.
+  destruct dr as [|r dr].
+  - simpl. destruct (do_exec alloc pickc (do_advance s1 (poll_sleep epoll s1 now1 b)) cbs2) as [[s3 n3]|]; auto.
+  - rewrite run_app, do_regs_run. set (s2 := do_regs alloc s1 (r :: dr)) in *. clearbody s2.
+    simpl. destruct (do_exec alloc pickc s2 cbs2) as [[s3 n3]|]; auto.
+Qed.
+
+Lemma t_runonce_fires_due ops0 s epoll b lr dr cbs1 cbs2 s' e :
+  run alloc pickc init ops0 = Some s -> In e (q s) -> enext e <= clock s ->
+  runonce alloc pickc epoll s b lr dr cbs1 cbs2 = Some s' ->
+  (forall id, ~ In (LCancel (eser e) id) (log s')) ->
+  exists l now, log s' = l ++ log s /\ In (LFire e now) l.
+Proof.
+  intros Hr Hq Hd H Hnc. destruct (runonce_run _ _ _ _ _ _ _ _ H) as (sl & R & _).
+  unfold runonce_ops in R.
+  eapply (t_due_fires_later ops0 s _ cbs1 _ s' e Hr Hq Hd R Hnc).
+Qed.
+
+Lemma t_runonce_post epoll s b lr dr cbs1 cbs2 s' :
+  runonce alloc pickc epoll s b lr dr cbs1 cbs2 = Some s' -> forall x, In x (q s') -> clock s' < enext x.
+Proof.
+  clear alloc_ok pickc_ok. unfold runonce. intros H.
+  destruct (do_exec alloc pickc (do_regs alloc s lr) cbs1) as [[s1 now1]|]; [|discriminate].
+  match type of H with match do_exec alloc pickc ?s2 cbs2 with _ => _ end = _ =>
+    destruct (do_exec alloc pickc s2 cbs2) as [[s3 n3]|] eqn:E; [|discriminate] end.
+  inversion H; subst. apply (exec_post alloc pickc _ _ _ _ E).
+Qed.
 End Due.
